@@ -23,7 +23,8 @@ Rec == ndJsonDeserialize(IOEnv.TRACE)
 NKeys == atoi(IOEnv.NKEYS)
 KeysT == 1..NKeys
 
-VARIABLES l, A, C     \* C: configuration of the current behaviour (from its reset line)
+VARIABLES l, A, C,    \* C: configuration of the current behaviour (from its reset line)
+          P         \* the ghost before the latest state-changing line (crash / fault images)
 
 -----------------------------------------------------------------------------
 (* recorded state -> Layer B state record                                  *)
@@ -63,7 +64,11 @@ IsOk(r) == r.ret = "ok"
 CompactOps == {"compact", "major", "leveled", "movedown", "pulldown", "fifo"}
 \* read-only lines (scans) do not repeat the state: the state of line i is the one
 \* recorded by the closest earlier line that is not read-only (at most 12 lines back)
-StIdx(i) == Max({j \in (IF i > 12 THEN i - 12 ELSE 1)..i : ~Rec[j].ro})
+\* (lines inserted by the crash / fault drivers say how many lines back it is: "pb")
+StIdx(i) ==
+    IF ~Rec[i].ro THEN i
+    ELSE IF "pb" \in DOMAIN Rec[i] THEN i - Rec[i].pb
+    ELSE Max({j \in (IF i > 12 THEN i - 12 ELSE 1)..i : ~Rec[j].ro})
 Pre(i)  == StOf(Rec[StIdx(i - 1)].st)      \* only used when line i is not a reset
 Post(i) == StOf(Rec[StIdx(i)].st)
 
@@ -395,6 +400,18 @@ DirClean(rst) ==
         /\ Range(rst.ls.v) = {sv.vid}
         /\ Range(rst.ls.other) = {"current"}
 
+\* C05 / C16: a directory image taken while the operation of this line was in flight (or a
+\* reopen after the operation failed) opens, and holds the durable content of the ghost
+\* before or after the operation - all of it, never a mixture
+ImageMatches(r, g) ==
+    LET L == LiveDurable(g) IN
+    /\ \A k \in KeysT : DefinedL(g, L, k, Top) => r.info.gets[k] = OracleL(L, k, Top)
+    /\ OnlyDefinedL(r.info.scan, g, L, Top) = OnlyDefinedL(ScanOf(L, Top, FullBounds), g, L, Top)
+
+CrashOk(r, before, after) ==
+    /\ r.info.open = "ok"
+    /\ ImageMatches(r, before) \/ ImageMatches(r, after)
+
 StateChecks(i, a, cfg) ==
     LET r == Rec[i] st == Post(i) IN
     /\ (FilesLive(r.st)         \/ Say("VIOL", "FILES", i, r.st.ls))
@@ -418,12 +435,15 @@ StateChecks(i, a, cfg) ==
           \/ r.info.choice[1] # 1 \/ ShownOk(i, cfg) \/ Say("DRIFT", "shown", i, r.info.shown))
 
 \* evaluate everything on line i with ghost a (already advanced); always TRUE
-CheckLine(i, a, cfg) ==
+CheckLine(i, a, cfg, prev) ==
     LET r == Rec[i] IN
     IF r.op.op = "reset" THEN
         /\ (Post(i) = InitState \/ Say("DRIFT", "init", i, DiffFields(Post(i), InitState)))
     ELSE IF r.ret # "ok" THEN
         /\ (r.rk = "skip" \/ Say("VIOL", "OPFAIL", i, r.ret))
+    ELSE IF r.ro /\ r.op.op = "nop" THEN TRUE
+    ELSE IF r.ro /\ r.op.op = "crashimg" THEN
+        /\ (CrashOk(r, prev, a) \/ Say("VIOL", "CRASH", i, r.info))
     ELSE IF r.ro THEN
         /\ (ScanLineOk(r, a) \/ Say("VIOL", "SCANX", i, <<r.op, r.info, ScanExpected(r, a)>>))
     ELSE
@@ -438,16 +458,17 @@ CheckLine(i, a, cfg) ==
        ELSE StateChecks(i, a, cfg)
 
 CfgOf(r) == [sep |-> [on |-> r.op.blob, big |-> Range(r.op.big)], rules |-> r.op.filter]
-Init == l = 0 /\ A = AInit /\ C = [sep |-> NoSep, rules |-> <<>>]
+Init == l = 0 /\ A = AInit /\ C = [sep |-> NoSep, rules |-> <<>>] /\ P = AInit
 
 Next ==
     /\ l < Len(Rec)
     /\ l' = l + 1
     /\ C' = IF Rec[l + 1].op.op = "reset" THEN CfgOf(Rec[l + 1]) ELSE C
     /\ A' = GhostStep(A, l + 1, C')
-    /\ CheckLine(l + 1, A', C')
+    /\ P' = IF Rec[l + 1].ro THEN P ELSE A
+    /\ CheckLine(l + 1, A', C', P')
 
-Spec == Init /\ [][Next]_<<l, A, C>>
+Spec == Init /\ [][Next]_<<l, A, C, P>>
 
 Accepted ==
     \/ TLCGet("stats").diameter - 1 = Len(Rec)
